@@ -23,7 +23,7 @@ FUNCTIONS = ["FullscreenWindow.render_to_terminal", "BaseWindow.on_terminal_size
              "FmtStr.__eq__", "FmtStr.__str__", "FmtStr.__len__", "FmtStr.__getitem__", "FSArray.__getitem__/__len__",
              "blessed.Terminal.move/clear_eol/clear_bol/hide_cursor/normal_cursor (real capability strings)"]
 BOUNDS = ("terminal sizes (1,2), (2,2) quick; + (2,3), (3,3) thorough; optional resize to a different size in {(1,2),(2,2),(2,3),(3,2)}; "
-          "arrays of height 0..h+1, rows of length 0..w+1 given as str / 1-run / 2-run FmtStr, as list or FSArray; first array from "
+          "arrays of height 0..h+1, rows of length 0..w+1 given as str / 1-run / 2-run FmtStr (both formatted, or formatted then plain), as list or FSArray; first array from "
           "a reduced set, second array: quick every array of at most one row, every two-row array of plain rows of length 0 / w / w+1 (all ordered pairs of adjacent shapes) plus a seeded sample of the others, thorough all; every row character and every "
           "junk cell symbolic (any character: neither the window nor the model inspects them), cursor target any on-screen cell, hide_cursor both")
 STUBS = ["terminal model (xterm pending-wrap semantics) as output device; rows are handed over as FmtStr through the public "
@@ -39,6 +39,8 @@ ROW_ATT = [{"fg": 31}, {"bold": True}]
 
 def _row_options(w):
     opts = [(0, "s"), (1, "f"), (1, "s"), (w, "s"), (w, "g" if w >= 2 else "f"), (w + 1, "s"), (w + 1, "f")]
+    if w >= 2:
+        opts.append((w, "h"))            # a formatted run followed by an unformatted one
     if w >= 3:
         opts.append((w - 1, "g"))
     out = []
@@ -144,6 +146,8 @@ def _mk_rows(spec, chars, wrap, width):
             rows.append(t if wrap == "list" else FmtStr(Chunk(t)))
         elif kind == "f":
             rows.append(FmtStr(Chunk(t, ROW_ATT[0])))
+        elif kind == "h":
+            rows.append(FmtStr(Chunk(t[:1], ROW_ATT[0]), Chunk(t[1:])))
         else:
             rows.append(FmtStr(Chunk(t[:1], ROW_ATT[0]), Chunk(t[1:], ROW_ATT[1])))
     if wrap == "fsarray":
